@@ -292,6 +292,7 @@ class DB:
         self.impls = []
         self.traits = {}
         self.types = []
+        self.statics = {}
         with open(path) as f:
             for line in f:
                 d = json.loads(line)
@@ -306,6 +307,8 @@ class DB:
                     self.traits[d["id"]] = d
                 elif k == "types":
                     self.types = d["t"]
+                elif k == "static":
+                    self.statics[d["id"]] = d
         self.children = {}
         for f in self.fns.values():
             if f.parent:
